@@ -335,6 +335,16 @@ void t_atof(Src &s, Case &c)
             int ev = (int)(s.below(3) == 0 ? s.range(0, 300) : s.range(0, 30));
             if (pe == P_ATOF32)
                 ev = (int)s.range(0, 30);
+            if (s.below(12) == 0)
+            {
+                // long exponent fields: leading zeros and/or an exponent far out of range (the value
+                // is then 0 or inf for every parser; what is checked is the end of the literal)
+                c.label("long_exponent_field");
+                for (int z = (int)s.below(6); z > 0; z--)
+                    lit += '0';
+                if (s.coin())
+                    ev = (int)s.pick({99999, 100000, 100001, 999999, 1000000, 1000005, 4194304, 123456789});
+            }
             lit += std::to_string(ev);
         }
     }
